@@ -84,6 +84,9 @@ func (e Event) String() string {
 // World executes plans over model instances.
 type World struct {
 	Overflows int // stack exhaustions predicted so far
+	// EnsureTerm: the runtime has close-on-context-done: a loop header in a function of a CLOSED instance
+	// ends the call with the exit error (that is what the option's checks do, whoever closed the instance)
+	EnsureTerm bool
 	// Host is the model-side semantics of the host function: it is called at
 	// every AHost atom and decides (drawing from the tape and recording the
 	// decision for the real host function to replay) what the host does.
@@ -99,6 +102,12 @@ type World struct {
 	chainBase int
 	// Depth of guest frames, for re-entrancy decisions.
 	Depth int
+	// Interp selects the interpreter's loop-header check: it tests the module
+	// of the calling frame and then the module the API call was made on; the
+	// compiler tests only the latter.
+	Interp bool
+	roots  []*Inst
+	frames []*Inst
 	// MaxDepthSeen is the deepest guest nesting reached.
 	MaxDepthSeen int
 }
@@ -124,7 +133,12 @@ func (w *World) curChain() []string {
 func (w *World) APICall(in *Inst, fn int, x int32) (int32, *Fail) {
 	savedBase := w.chainBase
 	w.chainBase = len(w.chain)
+	w.roots = append(w.roots, in)
+	savedFrames := w.frames
+	w.frames = nil
 	r, f := w.call(in, fn, x)
+	w.frames = savedFrames
+	w.roots = w.roots[:len(w.roots)-1]
 	w.chainBase = savedBase
 	if f == nil && in.Closed {
 		f = &Fail{Kind: "exit", ExitCode: in.ExitCode}
@@ -167,6 +181,7 @@ func (w *World) gleaf(in *Inst, x int32) int32 {
 func (w *World) call(in *Inst, fn int, x int32) (res int32, fail *Fail) {
 	name := fmt.Sprintf("%s.f%d", in.P.Name, fn)
 	w.chain = append(w.chain, name)
+	w.frames = append(w.frames, in)
 	w.Depth++
 	if w.Depth > w.MaxDepthSeen {
 		w.MaxDepthSeen = w.Depth
@@ -175,6 +190,7 @@ func (w *World) call(in *Inst, fn int, x int32) (res int32, fail *Fail) {
 	defer func() {
 		w.Depth--
 		w.chain = w.chain[:len(w.chain)-1]
+		w.frames = w.frames[:len(w.frames)-1]
 		if fail != nil {
 			w.emit(in, Event{Kind: "abort", Func: name, Exhaustion: fail.Kind == "stack-overflow" && !fail.Rethrown})
 		} else {
@@ -185,6 +201,30 @@ func (w *World) call(in *Inst, fn int, x int32) (res int32, fail *Fail) {
 	trap := func(k int) *Fail { return &Fail{Kind: "trap", Msg: TrapMsg[k]} }
 	for _, a := range in.P.Funcs[fn].Atoms {
 		switch a.K {
+		case ALoop:
+			if w.EnsureTerm {
+				root := in
+				if len(w.roots) > 0 {
+					root = w.roots[len(w.roots)-1]
+				}
+				if w.Interp {
+					caller := root
+					if n := len(w.frames); n >= 2 {
+						caller = w.frames[n-2]
+					}
+					if caller.Closed {
+						return 0, &Fail{Kind: "exit", ExitCode: caller.ExitCode}
+					}
+				}
+				if root.Closed {
+					return 0, &Fail{Kind: "exit", ExitCode: root.ExitCode}
+				}
+			}
+			acc += 3
+		case ABrIfRet:
+			if acc == a.A {
+				return acc, nil
+			}
 		case AStore:
 			in.Cells[a.A] = a.B
 		case AStoreAcc:
